@@ -8,9 +8,10 @@ VERIF = os.path.dirname(os.path.dirname(os.path.abspath(__file__)))
 
 TRUSTED_COMMON = [
     "IEEE-754 float64 arithmetic treated as exact real arithmetic (softplus threshold, clamp, epsilon clamps and overflow are invisible)",
-    "assumed contracts (models) of the torch / numpy primitives in qv/symtensor.py (conformance-sampled, not proved)",
-    "tensor shapes are instantiated per configuration: proofs hold for all values at each enumerated shape / flag combination",
-    "the home-made normaliser qv/alg.py (every rewrite is a real/complex identity under the recorded side condition); cross-checked by z3 on small obligations",
+    "assumed contracts (models) of the torch / numpy primitives in qv/symtensor.py and qv/gen.py (conformance-sampled / cross-checked against the real code on sampled inputs, not proved)",
+    "front ends N and A: tensor shapes are instantiated per configuration, proofs hold for all values at each enumerated shape / flag combination; only obligations with back end tensor-normal-form(all shapes) or lean4+mathlib hold for every size",
+    "the home-made normalisers qv/alg.py and qv/gen.py (every rewrite is a real/complex identity under the recorded side condition); cross-checked by z3 on small obligations and by numeric evaluation against the real code",
+    "obligations labelled '(bounded)' (size-fork / loop-contract probes, bounded drivers, conformance samples) are concrete runs at stated sizes: never counted as proof",
     "GPU branches are never executed",
 ]
 
